@@ -169,9 +169,10 @@ def checkItemX (T : TsDoc) (S : Schema) (n : Nat) (Z : List Name → List Direct
   | .typeExt _ => []
 
 /-- `check_type_system_document` run with `n` rounds of fuel for each directive-recursion search and the behaviour `Z`
-    when the fuel runs out -/
+    when the fuel runs out (`check_unique_names`, which comes first since fix 8cdbacf, is one bounded pass over the
+    definitions with two vectors — `iter().find`, `push` — and has neither a panic site nor fuel) -/
 def checkSchemaX (T : TsDoc) (n : Nat) (Z : List Name → List DirectiveDef → List Err) : List Err :=
-  T.flatMap (checkItemX T ⟨T⟩ n Z)
+  checkUniqueNames T ++ T.flatMap (checkItemX T ⟨T⟩ n Z)
 
 theorem checkItemX_eq (T : TsDoc) (S : Schema) (n : Nat) (Z : List Name → List DirectiveDef → List Err)
     (hn : T.length + 2 ≤ n) (it : TsItem) : checkItemX T S n Z it = checkItem T S it := by
@@ -182,8 +183,8 @@ theorem checkItemX_eq (T : TsDoc) (S : Schema) (n : Nat) (Z : List Name → List
 
 theorem checkSchemaX_eq (T : TsDoc) (n : Nat) (Z : List Name → List DirectiveDef → List Err)
     (hn : T.length + 2 ≤ n) : checkSchemaX T n Z = checkSchema T := by
-  unfold checkSchemaX checkSchema
-  congr 1
+  unfold checkSchemaX checkSchema checkSchemaItems
+  congr 2
   funext it
   exact checkItemX_eq T ⟨T⟩ n Z hn it
 
